@@ -1114,263 +1114,266 @@ def run(repo, chk):
         chk.fn(f)
 
     # ---------------------------------------------------------------- R-C14-1
-    adds = []   # (kind, reg, tag, site)
-    for rel in (BASE, ELEM):
-        for cname, c in repo.classes(rel).items():
-            kind = kind_of_class(cname, bases)
-            if kind is None:
-                continue
-            for mname, m in repo.methods(c).items():
-                sites = usage_sites(m)
-                a = [s for s in sites if s[0] == "add_usage"]
-                r = [s for s in sites if s[0] == "remove_usage"]
-                for s in a:
-                    adds.append((kind, s[1], s[2], "%s.%s" % (cname, mname), loc(rel, s[4]), s))
-                # setter discipline: a method that both removes and adds must use one registry and one tag
-                if a and r:
+    with chk.part("R-C14-1"):
+        adds = []   # (kind, reg, tag, site)
+        for rel in (BASE, ELEM):
+            for cname, c in repo.classes(rel).items():
+                kind = kind_of_class(cname, bases)
+                if kind is None:
+                    continue
+                for mname, m in repo.methods(c).items():
+                    sites = usage_sites(m)
+                    a = [s for s in sites if s[0] == "add_usage"]
+                    r = [s for s in sites if s[0] == "remove_usage"]
                     for s in a:
-                        same = [x for x in r if x[1] == s[1] and x[2] == s[2]]
-                        chk.expect(bool(same), "R-C14-1c", "%s.%s re-registers on %s tag %s" % (cname, mname, s[1], s[2]),
-                                   loc(rel, s[4]), "a setter that re-registers usage must un-register the old key from the same registry with the same tag",
-                                   expected="remove_usage on %s tag %s" % (s[1], s[2]), found=[(x[1], x[2]) for x in r])
-    wm = repo.cls(MODEL, "WaterNetworkModel")
-    for s in usage_sites(repo.func(MODEL, "WaterNetworkModel.add_source")):
-        if s[0] == "add_usage":
-            adds.append(("source", s[1], s[2], "WaterNetworkModel.add_source", loc(MODEL, s[4]), s))
-    del_sites = {}
-    for kind, rname in DELITEM_OF_KIND.items():
-        del_sites[kind] = [s for s in usage_sites(delitems[rname]) if s[0] == "remove_usage"]
-    add_pairs = {}
-    for kind, reg, tag, where, l, s in adds:
-        add_pairs.setdefault((kind, reg, tag), []).append((where, l))
-    for (kind, reg, tag), wh in sorted(add_pairs.items(), key=str):
-        rs = [x for x in del_sites[kind] if x[1] == reg and x[2] == tag]
-        chk.expect(bool(rs), "R-C14-1a", "usage (%s, tag %s) registered by %s is removed by %s.__delitem__" % (reg, tag, kind, DELITEM_OF_KIND[kind]),
-                   wh[0][1], "every add_usage(registry, tag) of a user must be undone on the same registry with the same tag when the user is deleted; registered at %s" % ", ".join(w[0] for w in wh),
-                   expected="%s.remove_usage(<key>, (<name>, %s)) in %s.__delitem__" % (reg, tag, DELITEM_OF_KIND[kind]),
-                   found=sorted({(x[1], x[2]) for x in del_sites[kind]}))
-        chk.sample({"rule": "R-C14-1a", "kind": kind, "registry": reg, "tag": tag, "added_at": [w[0] for w in wh], "removed": bool(rs)})
-    for kind, sites in del_sites.items():
-        for s in sites:
-            chk.expect((kind, s[1], s[2]) in add_pairs, "R-C14-1b",
-                       "%s.__delitem__ removes usage (%s, tag %s) that some %s registers" % (DELITEM_OF_KIND[kind], s[1], s[2], kind),
-                       loc(MODEL, s[4]), "a remove_usage on a registry/tag nobody registers on is a removal from the wrong registry (and raises a swallowed KeyError)",
-                       expected="one of %s" % sorted(k[1:] for k in add_pairs if k[0] == kind), found=(s[1], s[2]))
-            # usage keys are names: a loop variable over pattern_list() (Pattern objects) used bare as key is an object
-            key = s[3]
-            if isinstance(key, ast.Name):
-                loop = enclosing(s[4], ast.For)
-                while loop is not None and not (isinstance(loop.target, ast.Name) and loop.target.id == key.id):
-                    loop = enclosing(loop, ast.For)
-                if loop is not None and isinstance(loop.iter, ast.Call) and last_attr(loop.iter) == "pattern_list":
-                    pl = repo.func(ELEM, "Demands.pattern_list")
-                    objs = any(isinstance(c.args[0], ast.Attribute) and c.args[0].attr == "pattern" for c in calls(pl, attr="append") if c.args)
-                    chk.expect(not objs, "R-C14-1d", "%s.__delitem__ keys remove_usage by a name, not by a Pattern object" % DELITEM_OF_KIND[kind],
-                               loc(MODEL, s[4]), "Demands.pattern_list() yields Pattern objects; _usage is keyed by names", expected="<pattern>.name", found=unparse(key))
-    chk.floor("R-C14-1a", 8)
-    chk.floor("R-C14-1b", 9)
-    chk.floor("R-C14-1c", 4)
+                        adds.append((kind, s[1], s[2], "%s.%s" % (cname, mname), loc(rel, s[4]), s))
+                    # setter discipline: a method that both removes and adds must use one registry and one tag
+                    if a and r:
+                        for s in a:
+                            same = [x for x in r if x[1] == s[1] and x[2] == s[2]]
+                            chk.expect(bool(same), "R-C14-1c", "%s.%s re-registers on %s tag %s" % (cname, mname, s[1], s[2]),
+                                       loc(rel, s[4]), "a setter that re-registers usage must un-register the old key from the same registry with the same tag",
+                                       expected="remove_usage on %s tag %s" % (s[1], s[2]), found=[(x[1], x[2]) for x in r])
+        wm = repo.cls(MODEL, "WaterNetworkModel")
+        for s in usage_sites(repo.func(MODEL, "WaterNetworkModel.add_source")):
+            if s[0] == "add_usage":
+                adds.append(("source", s[1], s[2], "WaterNetworkModel.add_source", loc(MODEL, s[4]), s))
+        del_sites = {}
+        for kind, rname in DELITEM_OF_KIND.items():
+            del_sites[kind] = [s for s in usage_sites(delitems[rname]) if s[0] == "remove_usage"]
+        add_pairs = {}
+        for kind, reg, tag, where, l, s in adds:
+            add_pairs.setdefault((kind, reg, tag), []).append((where, l))
+        for (kind, reg, tag), wh in sorted(add_pairs.items(), key=str):
+            rs = [x for x in del_sites[kind] if x[1] == reg and x[2] == tag]
+            chk.expect(bool(rs), "R-C14-1a", "usage (%s, tag %s) registered by %s is removed by %s.__delitem__" % (reg, tag, kind, DELITEM_OF_KIND[kind]),
+                       wh[0][1], "every add_usage(registry, tag) of a user must be undone on the same registry with the same tag when the user is deleted; registered at %s" % ", ".join(w[0] for w in wh),
+                       expected="%s.remove_usage(<key>, (<name>, %s)) in %s.__delitem__" % (reg, tag, DELITEM_OF_KIND[kind]),
+                       found=sorted({(x[1], x[2]) for x in del_sites[kind]}))
+            chk.sample({"rule": "R-C14-1a", "kind": kind, "registry": reg, "tag": tag, "added_at": [w[0] for w in wh], "removed": bool(rs)})
+        for kind, sites in del_sites.items():
+            for s in sites:
+                chk.expect((kind, s[1], s[2]) in add_pairs, "R-C14-1b",
+                           "%s.__delitem__ removes usage (%s, tag %s) that some %s registers" % (DELITEM_OF_KIND[kind], s[1], s[2], kind),
+                           loc(MODEL, s[4]), "a remove_usage on a registry/tag nobody registers on is a removal from the wrong registry (and raises a swallowed KeyError)",
+                           expected="one of %s" % sorted(k[1:] for k in add_pairs if k[0] == kind), found=(s[1], s[2]))
+                # usage keys are names: a loop variable over pattern_list() (Pattern objects) used bare as key is an object
+                key = s[3]
+                if isinstance(key, ast.Name):
+                    loop = enclosing(s[4], ast.For)
+                    while loop is not None and not (isinstance(loop.target, ast.Name) and loop.target.id == key.id):
+                        loop = enclosing(loop, ast.For)
+                    if loop is not None and isinstance(loop.iter, ast.Call) and last_attr(loop.iter) == "pattern_list":
+                        pl = repo.func(ELEM, "Demands.pattern_list")
+                        objs = any(isinstance(c.args[0], ast.Attribute) and c.args[0].attr == "pattern" for c in calls(pl, attr="append") if c.args)
+                        chk.expect(not objs, "R-C14-1d", "%s.__delitem__ keys remove_usage by a name, not by a Pattern object" % DELITEM_OF_KIND[kind],
+                                   loc(MODEL, s[4]), "Demands.pattern_list() yields Pattern objects; _usage is keyed by names", expected="<pattern>.name", found=unparse(key))
+        chk.floor("R-C14-1a", 8)
+        chk.floor("R-C14-1b", 9)
+        chk.floor("R-C14-1c", 4)
 
     # ---------------------------------------------------------------- R-C14-2 / -3 / -4 / -8 and the filing part of R-C14-5: interpreted histories
-    rule_histories(repo, chk, TYPED_SETS)
-    rule_refusals(repo, chk)
-    chk.floor("R-C14-1c", 11)
-    chk.floor("R-C14-4", len(TYPED_SETS) + 3 + 7)
-    # (R-C14-4: refusal while a control requires the element, force and with_control are decided by the interpreted histories of rule_refusals)
-    # R-C14-4b: nothing is removed from the model before the registry had its chance to refuse: every remove_control in remove_node /
-    # remove_link is dominated by the registry's __delitem__ (a refused removal leaves the controls too)
-    from ..cfg import CFG
-    for meth in ("remove_node", "remove_link"):
-        fn = repo.func(MODEL, "WaterNetworkModel.%s" % meth)
-        g = CFG(fn)
-        reg = "_node_reg" if meth == "remove_node" else "_link_reg"
-        dels = g.nodes_where(lambda node, d, fn=fn, reg=reg: deletes_from(fn, node, reg))     # .__delitem__(k) / del reg[k] / alias
-        rcs = g.calling("remove_control")
-        idom = g.dominators()
-        for rc in rcs:
-            chk.expect(any(g.dominates(d, rc, idom) for d in dels), "R-C14-4b", "WaterNetworkModel.%s removes the element's controls only after the registry accepted the removal" % meth,
-                       loc(fn, g.node_ast(rc)), "with_control=True deletes the controls and then the registry refuses because the element is still in use: the refused removal changed the model",
-                       expected="remove_control dominated by %s.__delitem__" % reg, found=g.label(rc))
-        if not rcs or not dels:
-            raise AnchorError("WaterNetworkModel.%s: remove_control / deletion from self.%s not found" % (meth, reg))
-    # (R-C14-7: no partial registration is decided by the interpreted histories of rule_refusals)
-    # R-C14-1e: guards on pattern objects are identity tests: Pattern defines __len__, an empty pattern is falsy
-    falsy_classes = {cname for cname, c in repo.classes(ELEM).items() if any(isinstance(n, ast.FunctionDef) and n.name in ("__len__", "__bool__") for n in c.body)}
-    chk.sample({"rule": "R-C14-1e", "classes_with_len_or_bool": sorted(falsy_classes)})
-    for rname in ("NodeRegistry", "LinkRegistry", "SourceRegistry"):
-        if rname not in reg_classes:
-            continue
-        dfn, _c = find_delitem(repo, rname)
-        for lp in [n for n in walk(dfn) if isinstance(n, ast.For) and isinstance(n.iter, ast.Call) and last_attr(n.iter) == "pattern_list" and isinstance(n.target, ast.Name)]:
-            v = lp.target.id
-            for gd in [n for n in walk(lp) if isinstance(n, ast.If) and any(last_attr(c) == "remove_usage" for c in calls(n))]:
-                bare = isinstance(gd.test, ast.Name) and gd.test.id == v
-                chk.expect(not (bare and "Pattern" in falsy_classes), "R-C14-1e", "%s.__delitem__ tests the pattern of a demand for `is not None`, not for truthiness" % rname, loc(MODEL, gd),
-                           "Pattern defines __len__: a pattern without multipliers is falsy, so its usage record is not released and the pattern can never be removed",
-                           expected="if %s is not None" % v, found="if %s" % unparse(gd.test))
-    # R-C14-1f: usage records are keyed by names on both sides: an add_usage keyed by a raw parameter that may be an object
-    ad = repo.func(ELEM, "Junction.add_demand")
-    chk.fn(ad)
-    pnames = [a.arg for a in ad.args.args]
-    for c in [c for c in calls(ad) if last_attr(c) == "add_usage"]:
-        key = c.args[0]
-        raw = isinstance(key, ast.Name) and key.id in pnames
-        str_only = any(isinstance(a, ast.Assert) and ("isinstance(%s, str)" % (key.id if raw else "?")) in unparse(a) for a in walk(ad))
-        chk.expect(not raw or str_only, "R-C14-1f", "Junction.add_demand keys the pattern usage by the pattern's name", loc(ad, c),
-                   "the parameter may be a Pattern object (add_junction documents 'str or Pattern'); a record filed under the object is invisible to get_usage(name), "
-                   "so remove_pattern of a pattern in use is not refused", expected="<pattern>.name or a str", found=unparse(key))
+    with chk.part("R-C14-2 / -3 / -4 / -8 and the filing part of R-C14-5: interpreted histories"):
+        rule_histories(repo, chk, TYPED_SETS)
+        rule_refusals(repo, chk)
+        chk.floor("R-C14-1c", 11)
+        chk.floor("R-C14-4", len(TYPED_SETS) + 3 + 7)
+        # (R-C14-4: refusal while a control requires the element, force and with_control are decided by the interpreted histories of rule_refusals)
+        # R-C14-4b: nothing is removed from the model before the registry had its chance to refuse: every remove_control in remove_node /
+        # remove_link is dominated by the registry's __delitem__ (a refused removal leaves the controls too)
+        from ..cfg import CFG
+        for meth in ("remove_node", "remove_link"):
+            fn = repo.func(MODEL, "WaterNetworkModel.%s" % meth)
+            g = CFG(fn)
+            reg = "_node_reg" if meth == "remove_node" else "_link_reg"
+            dels = g.nodes_where(lambda node, d, fn=fn, reg=reg: deletes_from(fn, node, reg))     # .__delitem__(k) / del reg[k] / alias
+            rcs = g.calling("remove_control")
+            idom = g.dominators()
+            for rc in rcs:
+                chk.expect(any(g.dominates(d, rc, idom) for d in dels), "R-C14-4b", "WaterNetworkModel.%s removes the element's controls only after the registry accepted the removal" % meth,
+                           loc(fn, g.node_ast(rc)), "with_control=True deletes the controls and then the registry refuses because the element is still in use: the refused removal changed the model",
+                           expected="remove_control dominated by %s.__delitem__" % reg, found=g.label(rc))
+            if not rcs or not dels:
+                raise AnchorError("WaterNetworkModel.%s: remove_control / deletion from self.%s not found" % (meth, reg))
+        # (R-C14-7: no partial registration is decided by the interpreted histories of rule_refusals)
+        # R-C14-1e: guards on pattern objects are identity tests: Pattern defines __len__, an empty pattern is falsy
+        falsy_classes = {cname for cname, c in repo.classes(ELEM).items() if any(isinstance(n, ast.FunctionDef) and n.name in ("__len__", "__bool__") for n in c.body)}
+        chk.sample({"rule": "R-C14-1e", "classes_with_len_or_bool": sorted(falsy_classes)})
+        for rname in ("NodeRegistry", "LinkRegistry", "SourceRegistry"):
+            if rname not in reg_classes:
+                continue
+            dfn, _c = find_delitem(repo, rname)
+            for lp in [n for n in walk(dfn) if isinstance(n, ast.For) and isinstance(n.iter, ast.Call) and last_attr(n.iter) == "pattern_list" and isinstance(n.target, ast.Name)]:
+                v = lp.target.id
+                for gd in [n for n in walk(lp) if isinstance(n, ast.If) and any(last_attr(c) == "remove_usage" for c in calls(n))]:
+                    bare = isinstance(gd.test, ast.Name) and gd.test.id == v
+                    chk.expect(not (bare and "Pattern" in falsy_classes), "R-C14-1e", "%s.__delitem__ tests the pattern of a demand for `is not None`, not for truthiness" % rname, loc(MODEL, gd),
+                               "Pattern defines __len__: a pattern without multipliers is falsy, so its usage record is not released and the pattern can never be removed",
+                               expected="if %s is not None" % v, found="if %s" % unparse(gd.test))
+        # R-C14-1f: usage records are keyed by names on both sides: an add_usage keyed by a raw parameter that may be an object
+        ad = repo.func(ELEM, "Junction.add_demand")
+        chk.fn(ad)
+        pnames = [a.arg for a in ad.args.args]
+        for c in [c for c in calls(ad) if last_attr(c) == "add_usage"]:
+            key = c.args[0]
+            raw = isinstance(key, ast.Name) and key.id in pnames
+            str_only = any(isinstance(a, ast.Assert) and ("isinstance(%s, str)" % (key.id if raw else "?")) in unparse(a) for a in walk(ad))
+            chk.expect(not raw or str_only, "R-C14-1f", "Junction.add_demand keys the pattern usage by the pattern's name", loc(ad, c),
+                       "the parameter may be a Pattern object (add_junction documents 'str or Pattern'); a record filed under the object is invisible to get_usage(name), "
+                       "so remove_pattern of a pattern in use is not refused", expected="<pattern>.name or a str", found=unparse(key))
 
-    # R-C14-1g: the documented way to change a demand's pattern moves the usage record like every other reference-changing setter
-    tps = repo.func(ELEM, "TimeSeries.pattern_name", kind="setter")
-    chk.fn(tps)
-    ops = [last_attr(c) for c in calls(tps) if last_attr(c) in ("add_usage", "remove_usage")]
-    chk.expect("add_usage" in ops and "remove_usage" in ops, "R-C14-1g", "TimeSeries.pattern_name setter moves the usage record from the old pattern to the new one", loc(tps),
-               "Junction.base_demand / demand_pattern are read-only and point to demand_timeseries_list[0].pattern_name = ... as the way to change a pattern; that setter only stores the "
-               "name: the new pattern can be removed while in use and the old one cannot be removed although unused", expected="remove_usage(old) and add_usage(new)", found=ops)
+        # R-C14-1g: the documented way to change a demand's pattern moves the usage record like every other reference-changing setter
+        tps = repo.func(ELEM, "TimeSeries.pattern_name", kind="setter")
+        chk.fn(tps)
+        ops = [last_attr(c) for c in calls(tps) if last_attr(c) in ("add_usage", "remove_usage")]
+        chk.expect("add_usage" in ops and "remove_usage" in ops, "R-C14-1g", "TimeSeries.pattern_name setter moves the usage record from the old pattern to the new one", loc(tps),
+                   "Junction.base_demand / demand_pattern are read-only and point to demand_timeseries_list[0].pattern_name = ... as the way to change a pattern; that setter only stores the "
+                   "name: the new pattern can be removed while in use and the old one cannot be removed although unused", expected="remove_usage(old) and add_usage(new)", found=ops)
 
     # (R-C14-6: duplicate names are decided by the interpreted histories of rule_refusals)
 
     # ---------------------------------------------------------------- R-C14-5
-    def prop_return(cls, name):
-        fn = repo.methods(cls).get(name)
-        if fn is None:
-            raise AnchorError("%s.%s vanished" % (cls.name, name))
-        rets = [s for s in walk(fn) if isinstance(s, ast.Return) and s.value is not None]
-        if len(rets) != 1:
-            raise AnchorError("%s.%s: expected a single return" % (cls.name, name))
-        return rets[0].value, fn
+    with chk.part("R-C14-5"):
+        def prop_return(cls, name):
+            fn = repo.methods(cls).get(name)
+            if fn is None:
+                raise AnchorError("%s.%s vanished" % (cls.name, name))
+            rets = [s for s in walk(fn) if isinstance(s, ast.Return) and s.value is not None]
+            if len(rets) != 1:
+                raise AnchorError("%s.%s: expected a single return" % (cls.name, name))
+            return rets[0].value, fn
 
-    def reg_names_set(regcls, attr):
-        """NodeRegistry.<attr> property -> backing set attribute."""
-        v, fn = prop_return(regcls, attr)
-        d = dotted(v)
-        if isinstance(v, ast.Call) and call_name(v) in ("list", "OrderedSet") and v.args:
-            d = dotted(v.args[0])
-        if d and d.startswith("self."):
-            return d[5:]
-        raise AnchorError("%s.%s does not return a set attribute" % (regcls.name, attr))
+        def reg_names_set(regcls, attr):
+            """NodeRegistry.<attr> property -> backing set attribute."""
+            v, fn = prop_return(regcls, attr)
+            d = dotted(v)
+            if isinstance(v, ast.Call) and call_name(v) in ("list", "OrderedSet") and v.args:
+                d = dotted(v.args[0])
+            if d and d.startswith("self."):
+                return d[5:]
+            raise AnchorError("%s.%s does not return a set attribute" % (regcls.name, attr))
 
-    def reg_iter_set(regcls, meth):
-        """the set S such that the generator produces exactly (name, self._data[name]) for name in self.S (abstract execution)."""
-        got = iterated_set(GenEval(repo, regcls).stream(meth))
-        if got.startswith("<"):
-            raise AnchorError("%s.%s: does not iterate one typed set as (name, self._data[name]): %s" % (regcls.name, meth, got))
-        return got
+        def reg_iter_set(regcls, meth):
+            """the set S such that the generator produces exactly (name, self._data[name]) for name in self.S (abstract execution)."""
+            got = iterated_set(GenEval(repo, regcls).stream(meth))
+            if got.startswith("<"):
+                raise AnchorError("%s.%s: does not iterate one typed set as (name, self._data[name]): %s" % (regcls.name, meth, got))
+            return got
 
-    kinds = [("junction", "_node_reg", "NodeRegistry"), ("tank", "_node_reg", "NodeRegistry"), ("reservoir", "_node_reg", "NodeRegistry")]
-    kinds += [(k, "_link_reg", "LinkRegistry") for k in ("pipe", "pump", "valve", "head_pump", "power_pump", "prv", "psv", "pbv", "tcv", "fcv", "gpv")]
-    has_num = {"junction", "tank", "reservoir", "pipe", "pump", "valve"}
-    for k, reg, rcn in kinds:
-        rc = reg_classes[rcn]
-        views = {}
-        v, f = prop_return(wm, k + "_name_list")
-        inner = v.args[0] if isinstance(v, ast.Call) and call_name(v) == "list" and v.args else v
-        d = dotted(inner)
-        if not d or not d.startswith("self.%s." % reg):
-            chk.bad("R-C14-5", "WaterNetworkModel.%s_name_list reads %s" % (k, reg), loc(f), found=unparse(v))
-            continue
-        views["name_list"] = reg_names_set(rc, d.split(".")[2])
-        if k in has_num:
-            v, f = prop_return(wm, "num_" + k + "s")
-            inner = v.args[0] if isinstance(v, ast.Call) and call_name(v) == "len" and v.args else None
-            d = dotted(inner) if inner is not None else None
+        kinds = [("junction", "_node_reg", "NodeRegistry"), ("tank", "_node_reg", "NodeRegistry"), ("reservoir", "_node_reg", "NodeRegistry")]
+        kinds += [(k, "_link_reg", "LinkRegistry") for k in ("pipe", "pump", "valve", "head_pump", "power_pump", "prv", "psv", "pbv", "tcv", "fcv", "gpv")]
+        has_num = {"junction", "tank", "reservoir", "pipe", "pump", "valve"}
+        for k, reg, rcn in kinds:
+            rc = reg_classes[rcn]
+            views = {}
+            v, f = prop_return(wm, k + "_name_list")
+            inner = v.args[0] if isinstance(v, ast.Call) and call_name(v) == "list" and v.args else v
+            d = dotted(inner)
             if not d or not d.startswith("self.%s." % reg):
-                chk.bad("R-C14-5", "WaterNetworkModel.num_%ss reads %s" % (k, reg), loc(f), found=unparse(v))
+                chk.bad("R-C14-5", "WaterNetworkModel.%s_name_list reads %s" % (k, reg), loc(f), found=unparse(v))
                 continue
-            views["num"] = reg_names_set(rc, d.split(".")[2])
-        v, f = prop_return(wm, k + "s")
-        d = dotted(v)
-        if not d or not d.startswith("self.%s." % reg):
-            chk.bad("R-C14-5", "WaterNetworkModel.%ss reads %s" % (k, reg), loc(f), found=unparse(v))
-            continue
-        views["iterator"] = reg_iter_set(rc, d.split(".")[2])
-        chk.expect(len(set(views.values())) == 1 and set(views.values()) == {"_" + k + "s"}, "R-C14-5",
-                   "views of kind %s read one typed set" % k, loc(f),
-                   "name list, count and iterator of one kind must be backed by the same set", expected="_%ss" % k, found=views)
-        chk.sample({"rule": "R-C14-5", "kind": k, "views": views})
-    # __call__ dispatch (wn.nodes(Junction) / wn.links(Pipe))
-    for rcn, table in (("NodeRegistry", {"Junction": "_junctions", "Tank": "_tanks", "Reservoir": "_reservoirs"}),
-                       ("LinkRegistry", {"Pipe": "_pipes", "Pump": "_pumps", "Valve": "_valves"})):
-        fn = repo.methods(reg_classes[rcn]).get("__call__")
-        if fn is None:
-            raise AnchorError("%s.__call__ vanished" % rcn)
+            views["name_list"] = reg_names_set(rc, d.split(".")[2])
+            if k in has_num:
+                v, f = prop_return(wm, "num_" + k + "s")
+                inner = v.args[0] if isinstance(v, ast.Call) and call_name(v) == "len" and v.args else None
+                d = dotted(inner) if inner is not None else None
+                if not d or not d.startswith("self.%s." % reg):
+                    chk.bad("R-C14-5", "WaterNetworkModel.num_%ss reads %s" % (k, reg), loc(f), found=unparse(v))
+                    continue
+                views["num"] = reg_names_set(rc, d.split(".")[2])
+            v, f = prop_return(wm, k + "s")
+            d = dotted(v)
+            if not d or not d.startswith("self.%s." % reg):
+                chk.bad("R-C14-5", "WaterNetworkModel.%ss reads %s" % (k, reg), loc(f), found=unparse(v))
+                continue
+            views["iterator"] = reg_iter_set(rc, d.split(".")[2])
+            chk.expect(len(set(views.values())) == 1 and set(views.values()) == {"_" + k + "s"}, "R-C14-5",
+                       "views of kind %s read one typed set" % k, loc(f),
+                       "name list, count and iterator of one kind must be backed by the same set", expected="_%ss" % k, found=views)
+            chk.sample({"rule": "R-C14-5", "kind": k, "views": views})
+        # __call__ dispatch (wn.nodes(Junction) / wn.links(Pipe))
+        for rcn, table in (("NodeRegistry", {"Junction": "_junctions", "Tank": "_tanks", "Reservoir": "_reservoirs"}),
+                           ("LinkRegistry", {"Pipe": "_pipes", "Pump": "_pumps", "Valve": "_valves"})):
+            fn = repo.methods(reg_classes[rcn]).get("__call__")
+            if fn is None:
+                raise AnchorError("%s.__call__ vanished" % rcn)
+            chk.fn(fn)
+            # abstract execution of the generator for each concrete type argument: which container's names are yielded with their objects
+            from ..peval import Obj
+            ge = GenEval(repo, reg_classes[rcn])
+            got = {t: iterated_set(ge.stream("__call__", [Obj(t)])) for t in sorted(table)}
+            chk.expect(got == table, "R-C14-5", "%s.__call__(type) iterates the typed set of that type" % rcn, loc(fn),
+                       "wn.nodes(T) / wn.links(T) must yield (name, self._data[name]) for exactly the names in the typed set of T",
+                       expected=table, found=got)
+            allv = iterated_set(ge.stream("__call__", []))
+            chk.expect(allv == "_data", "R-C14-5", "%s.__call__() iterates the primary store" % rcn, loc(fn),
+                       "wn.nodes() / wn.links() without a type must yield every element of _data", expected="_data", found=allv)
+        # adjacency view
+        fn = repo.func(MODEL, "WaterNetworkModel.get_links_for_node")
         chk.fn(fn)
-        # abstract execution of the generator for each concrete type argument: which container's names are yielded with their objects
-        from ..peval import Obj
-        ge = GenEval(repo, reg_classes[rcn])
-        got = {t: iterated_set(ge.stream("__call__", [Obj(t)])) for t in sorted(table)}
-        chk.expect(got == table, "R-C14-5", "%s.__call__(type) iterates the typed set of that type" % rcn, loc(fn),
-                   "wn.nodes(T) / wn.links(T) must yield (name, self._data[name]) for exactly the names in the typed set of T",
-                   expected=table, found=got)
-        allv = iterated_set(ge.stream("__call__", []))
-        chk.expect(allv == "_data", "R-C14-5", "%s.__call__() iterates the primary store" % rcn, loc(fn),
-                   "wn.nodes() / wn.links() without a type must yield every element of _data", expected="_data", found=allv)
-    # adjacency view
-    fn = repo.func(MODEL, "WaterNetworkModel.get_links_for_node")
-    chk.fn(fn)
-    # decided by running the view on the fixture model under an edit history (no text match): the answers follow the links' current end nodes
-    from ._shared import adjacency_history_rules
-    adjacency_history_rules(repo, chk, "R-C14-5")
-    lt = None
-    for n in walk(fn):
-        if isinstance(n, ast.Assign) and isinstance(n.value, (ast.Set, ast.List, ast.Tuple)) and dotted(n.targets[0]) == "link_types":
-            lt = {const(e) for e in n.value.elts}
-    tags = set()
-    for cname in ("Pipe", "Pump", "Valve"):
-        v = repo.func(ELEM, "%s.link_type" % cname)
-        r = [s for s in walk(v) if isinstance(s, ast.Return)]
-        tags.add(const(r[0].value) if r else None)
-    chk.expect(lt is not None and tags <= lt, "R-C14-5", "link usage tags (link_type of Pipe/Pump/Valve) are the tags get_links_for_node accepts", loc(fn),
-               "a link registered under a tag the adjacency view filters out disappears from get_links_for_node", expected=sorted(map(str, tags)), found=sorted(map(str, lt or [])))
-    # to_graph iterates the registries
-    tg = repo.func("wntr/network/io.py", "to_graph")
-    chk.fn(tg)
-    s = unparse(tg)
-    chk.expect(".nodes()" in s and ".links()" in s, "R-C14-5", "to_graph is built from wn.nodes() and wn.links()", loc(tg))
-    # end-node setters re-read the node from the registry
-    for which in ("start_node", "end_node"):
-        st = repo.func(BASE, "Link.%s" % which, kind="setter")
-        chk.fn(st)
-        asg = [a for a in walk(st) if isinstance(a, ast.Assign) and dotted(a.targets[0]) == "self._%s" % which]
-        chk.expect(bool(asg) and "self._node_reg[" in unparse(asg[0].value), "R-C14-5",
-                   "Link.%s setter stores the node object held by the registry" % which, loc(st),
-                   "the link must reference the registry's node (existing), not a foreign object")
-        us = usage_sites(st)
-        if asg and us and us[0][0] == "remove_usage":
-            chk.expect(us[0][4].lineno < asg[0].lineno, "R-C14-5", "Link.%s setter un-registers the old node BEFORE replacing self._%s" % (which, which), loc(st, asg[0]),
-                       "the key of remove_usage (%s_name) is read from the node object: once self._%s is replaced it names the new node and the old node keeps a stale usage record" % (which, which),
-                       expected="remove_usage(old name) precedes the assignment", found="assignment at line %d, remove_usage at line %d" % (asg[0].lineno, us[0][4].lineno))
-        chk.expect([u[0] for u in us] == ["remove_usage", "add_usage"] and
-                   us[0][3] is not None and ("%s_name" % which) in unparse(us[0][3]), "R-C14-5",
-                   "Link.%s setter un-registers the old %s and registers the new one" % (which, which), loc(st),
-                   found=[(u[0], unparse(u[3])) for u in us])
-    # R-C14-5s: both setters interpreted (sa/concrete.py, LinkWorld) on a pipe for every configuration of (start, end, new node) drawn from
-    # two nodes: afterwards a node's usage record holds the link iff the link starts or ends there
-    from ..concrete import ProgramError
-    from ..src import ExtractError
-    nodes_xy = {"X": "N1", "Y": "N2"}
-    for which in ("start_node", "end_node"):
-        st = repo.func(BASE, "Link.%s" % which, kind="setter")
-        for s0 in "XY":
-            for e0 in "XY":
-                for new in "XY":
-                    lw = LinkWorld(repo)
-                    try:
-                        lw.call(lw.wn, "add_pipe", LINK_USER, nodes_xy[s0], nodes_xy[e0])
-                        link = lw.store(lw.regs["_link_reg"])[LINK_USER]
-                        lw.I.setattr_(link, which, lw.store(lw.regs["_node_reg"])[nodes_xy[new]])
-                    except ProgramError as e:
-                        raise ExtractError("R-C14-5s Link.%s = %s on %s->%s: the interpreted program raised %s" % (which, new, s0, e0, e))
-                    held = {r[1] for r in lw.records() if r[0] == "_node_reg" and isinstance(r[2], tuple) and r[2][:1] == (LINK_USER,)}
-                    res = {n: (nodes_xy[n] in held) for n in "XY"}
-                    ends = {new, e0} if which == "start_node" else {s0, new}
-                    want = {n: (n in ends) for n in "XY"}
-                    chk.expect(res == want, "R-C14-5s",
-                               "Link.%s = %s on a link %s->%s leaves usage records exactly at the link's end nodes" % (which, new, s0, e0), loc(st),
-                               "interpreted on the repository's registries: usage[node] must contain the link iff the link starts or ends at node "
-                               "(get_links_for_node, remove_node's refusal and the mass balance rows read these records)", expected=want, found=res)
-    chk.floor("R-C14-5s", 16)
-    chk.floor("R-C14-5", 14 + 2 + 14 + 3 + 4)
+        # decided by running the view on the fixture model under an edit history (no text match): the answers follow the links' current end nodes
+        from ._shared import adjacency_history_rules
+        adjacency_history_rules(repo, chk, "R-C14-5")
+        lt = None
+        for n in walk(fn):
+            if isinstance(n, ast.Assign) and isinstance(n.value, (ast.Set, ast.List, ast.Tuple)) and dotted(n.targets[0]) == "link_types":
+                lt = {const(e) for e in n.value.elts}
+        tags = set()
+        for cname in ("Pipe", "Pump", "Valve"):
+            v = repo.func(ELEM, "%s.link_type" % cname)
+            r = [s for s in walk(v) if isinstance(s, ast.Return)]
+            tags.add(const(r[0].value) if r else None)
+        chk.expect(lt is not None and tags <= lt, "R-C14-5", "link usage tags (link_type of Pipe/Pump/Valve) are the tags get_links_for_node accepts", loc(fn),
+                   "a link registered under a tag the adjacency view filters out disappears from get_links_for_node", expected=sorted(map(str, tags)), found=sorted(map(str, lt or [])))
+        # to_graph iterates the registries
+        tg = repo.func("wntr/network/io.py", "to_graph")
+        chk.fn(tg)
+        s = unparse(tg)
+        chk.expect(".nodes()" in s and ".links()" in s, "R-C14-5", "to_graph is built from wn.nodes() and wn.links()", loc(tg))
+        # end-node setters re-read the node from the registry
+        for which in ("start_node", "end_node"):
+            st = repo.func(BASE, "Link.%s" % which, kind="setter")
+            chk.fn(st)
+            asg = [a for a in walk(st) if isinstance(a, ast.Assign) and dotted(a.targets[0]) == "self._%s" % which]
+            chk.expect(bool(asg) and "self._node_reg[" in unparse(asg[0].value), "R-C14-5",
+                       "Link.%s setter stores the node object held by the registry" % which, loc(st),
+                       "the link must reference the registry's node (existing), not a foreign object")
+            us = usage_sites(st)
+            if asg and us and us[0][0] == "remove_usage":
+                chk.expect(us[0][4].lineno < asg[0].lineno, "R-C14-5", "Link.%s setter un-registers the old node BEFORE replacing self._%s" % (which, which), loc(st, asg[0]),
+                           "the key of remove_usage (%s_name) is read from the node object: once self._%s is replaced it names the new node and the old node keeps a stale usage record" % (which, which),
+                           expected="remove_usage(old name) precedes the assignment", found="assignment at line %d, remove_usage at line %d" % (asg[0].lineno, us[0][4].lineno))
+            chk.expect([u[0] for u in us] == ["remove_usage", "add_usage"] and
+                       us[0][3] is not None and ("%s_name" % which) in unparse(us[0][3]), "R-C14-5",
+                       "Link.%s setter un-registers the old %s and registers the new one" % (which, which), loc(st),
+                       found=[(u[0], unparse(u[3])) for u in us])
+        # R-C14-5s: both setters interpreted (sa/concrete.py, LinkWorld) on a pipe for every configuration of (start, end, new node) drawn from
+        # two nodes: afterwards a node's usage record holds the link iff the link starts or ends there
+        from ..concrete import ProgramError
+        from ..src import ExtractError
+        nodes_xy = {"X": "N1", "Y": "N2"}
+        for which in ("start_node", "end_node"):
+            st = repo.func(BASE, "Link.%s" % which, kind="setter")
+            for s0 in "XY":
+                for e0 in "XY":
+                    for new in "XY":
+                        lw = LinkWorld(repo)
+                        try:
+                            lw.call(lw.wn, "add_pipe", LINK_USER, nodes_xy[s0], nodes_xy[e0])
+                            link = lw.store(lw.regs["_link_reg"])[LINK_USER]
+                            lw.I.setattr_(link, which, lw.store(lw.regs["_node_reg"])[nodes_xy[new]])
+                        except ProgramError as e:
+                            raise ExtractError("R-C14-5s Link.%s = %s on %s->%s: the interpreted program raised %s" % (which, new, s0, e0, e))
+                        held = {r[1] for r in lw.records() if r[0] == "_node_reg" and isinstance(r[2], tuple) and r[2][:1] == (LINK_USER,)}
+                        res = {n: (nodes_xy[n] in held) for n in "XY"}
+                        ends = {new, e0} if which == "start_node" else {s0, new}
+                        want = {n: (n in ends) for n in "XY"}
+                        chk.expect(res == want, "R-C14-5s",
+                                   "Link.%s = %s on a link %s->%s leaves usage records exactly at the link's end nodes" % (which, new, s0, e0), loc(st),
+                                   "interpreted on the repository's registries: usage[node] must contain the link iff the link starts or ends at node "
+                                   "(get_links_for_node, remove_node's refusal and the mass balance rows read these records)", expected=want, found=res)
+        chk.floor("R-C14-5s", 16)
+        chk.floor("R-C14-5", 14 + 2 + 14 + 3 + 4)
 
 
 
